@@ -168,8 +168,12 @@ func jlStream(seed uint64, tier string, outDir string, props map[string]bool, fo
 	rep := &streamReport{Stream: "jl", Seed: seed, Distribution: map[string]int{}, Outcomes: map[string]int{}, OracleChecks: map[string]int{}}
 	r := newRng(seed, "jl")
 	violate := func(what string, input interface{}) {
-		if props["C19"] {
-			addViolation(rep, "C19", what, input)
+		// C19's own property, and C03 when the check of C03 runs this stream: the command must order, keep and drop
+		// columns as the library does with the equivalent templates (cmd/jl builds the templates C03 speaks of)
+		for _, pid := range []string{"C19", "C03"} {
+			if props[pid] {
+				addViolation(rep, pid, what, input)
+			}
 		}
 	}
 	repo := os.Getenv("VERIF_REPO")
